@@ -249,7 +249,7 @@ def correspondence(ck, binpath, n):
     if rc != 0:
         ck.tie_broken("harness c34 corr failed", (out[-500:] + err[-2000:]))
         return
-    cases = [json.loads(l) for l in out.splitlines() if l.strip()]
+    cases = [json.loads(l) for l in jlines(out) if l.strip()]
     for c in cases:
         if "panic" in c:
             ck.tie_broken("implementation panicked during a conversion: %s" % describe(c), c["panic"])
@@ -306,7 +306,7 @@ def search(ck, binpath, n, maxlen, alts):
     if rc != 0:
         ck.tie_broken("harness c34 search failed", (out[-500:] + err[-2000:]))
         return
-    for l in out.splitlines():
+    for l in jlines(out):
         if not l.strip():
             continue
         v = json.loads(l)
@@ -324,7 +324,7 @@ def replay(ck, binpath, path):
         if p is None:
             continue
         rc, out, err = ck.run_bin(binpath, ["one", "--path-json", json.dumps(p), "--alts", 24], env_extra={"VERIF_ROOT": VERIF})
-        for l in out.splitlines()[1:]:
+        for l in jlines(out)[1:]:
             vv = json.loads(l)
             ck.violation(vv["signature"], vv["what"], {"path": vv["path"], "extra": vv.get("extra")})
     if not data.get("violations"):
